@@ -112,6 +112,12 @@ MEDDLY::unary_operation::~unary_operation()
 
 void MEDDLY::unary_operation::compute(const dd_edge &arg, dd_edge &res)
 {
+    //
+    // The edges must belong to the forests this operation was built for.
+    //
+    if (!arg.isAttachedTo(argF) || !res.isAttachedTo(resF)) {
+        throw error(error::FOREST_MISMATCH, __FILE__, __LINE__);
+    }
     if (!checkForestCompatibility()) {
         throw error(error::INVALID_OPERATION, __FILE__, __LINE__);
     }
